@@ -12,7 +12,7 @@ from __future__ import annotations
 
 import logging
 import sqlite3
-from collections.abc import Sequence
+from collections.abc import Callable, Sequence
 from datetime import timedelta
 from typing import TYPE_CHECKING
 
@@ -131,6 +131,7 @@ class TransactionHelper:
         messages_to_push: Sequence[tuple[Message, float | None]] | None = None,
         handler_name: str = "UnknownHandler",
         require_atomic: bool = False,
+        in_transaction: Callable[[], None] | None = None,
     ) -> None:
         """
         Execute an atomic transaction to update state and queue messages.
@@ -147,6 +148,9 @@ class TransactionHelper:
                            does not provide true database-level atomicity.
                            Use this for critical operations that must not
                            leave partial state on failure.
+            in_transaction: Optional callback run inside the transaction right
+                           after the stage is stored (e.g. to record the event
+                           describing the change in the same commit).
 
         Raises:
             RuntimeError: If require_atomic=True and transaction is not atomic
@@ -168,6 +172,9 @@ class TransactionHelper:
 
                 if stage:
                     txn.store_stage(stage)
+
+                if in_transaction is not None:
+                    in_transaction()
 
                 if source_message and source_message.message_id:
                     execution_id = getattr(source_message, "execution_id", None)
